@@ -173,6 +173,18 @@ def monOp (op : String) (args : List String) : Option String :=
     match is with
     | [a, b, c, d] => some (verdict (monWithdrawPos amt a b c d em gone))
     | _ => none
+  | "mon_emergency_owners" => do
+    -- C09: <distinct owners of active farms (other than the position owner)> <of those, paid> <others paid> <all paid the same>
+    let (nexp, ts) ← pNat args
+    let (paid, ts) ← pNat ts
+    let (unexp, ts) ← pNat ts
+    let (equal, _) ← pBit ts
+    some (if unexp == 0 && (paid == 0 || paid == nexp) && equal then "ok" else "viol C09-split-recipients")
+  | "mon_farm_limit" => do
+    -- C11: <farms on one LP token after an accepted CreateFarm> <configured maximum>
+    let (n, ts) ← pNat args
+    let (mx, _) ← pNat ts
+    some (if n ≤ mx then "ok" else if mx > C.MAX_FARMS_LIMIT then "viol C11-max-farms-over-100" else "viol C11-farm-limit")
   | "mon_farm_create" => do
     let (aa, ts) ← pNat args
     let (fee, ts) ← pNat ts
